@@ -13,12 +13,19 @@
       [invoke_after] per entered function). *)
 From Coq Require Import ZArith NArith List Bool Lia.
 From CB Require Import Common.IntN Wasm.Syntax Wasm.Sem Wasm.CostCtx Wasm.Meter Wasm.SemTrace
-  Wasm.MeterProofs Wasm.SemTraceProofs Wasm.TraceEval.
+  Wasm.MeterProofs Wasm.SemTraceProofs Wasm.TraceEval Wasm.MeterSafe.
 Import ListNotations.
 Local Open Scope Z_scope.
 Local Arguments N.add : simpl never.
 Local Arguments N.ltb : simpl never.
 Local Arguments N.leb : simpl never.
+
+Ltac obind_inv H :=
+  repeat match type of H with
+         | obind ?o _ = Some _ => let E := fresh "E" in destruct o eqn:E; [cbn [obind] in H|discriminate H]
+         | (let '(_, _) := ?p in _) = Some _ => destruct p
+         | (if ?c then _ else _) = Some _ => let E := fresh "E" in destruct c eqn:E; [|discriminate H]
+         end.
 
 (** ** stores of the metered module: function indices in the table are shifted by one *)
 Definition sh (s : store) : store :=
@@ -456,6 +463,9 @@ Proof. destruct b; cbn; intro H; try discriminate; repeat split; intros; discrim
 Lemma label_arity0 L idx bt : lookup_label L idx = Some 0%N -> nth_error L idx = Some bt -> arity bt = 0%nat.
 Proof. unfold lookup_label. intros H E. rewrite E in H. destruct bt; [discriminate|reflexivity]. Qed.
 
+Lemma obs_pre o T t : obs_m T = obs_s t -> obs_m (ev_work o ++ T) = obs_s (ev_work o ++ t).
+Proof. intro H. rewrite obs_m_app, obs_s_app, obs_work, H. reflexivity. Qed.
+
 Lemma obs_call o fi T t : obs_m T = obs_s t ->
   obs_m (ev_work o ++ ev_call m' (S fi) ++ T) = obs_s (ev_work o ++ ev_call m fi ++ t).
 Proof. intro H. rewrite !obs_m_app, !obs_s_app, obs_ev_call, obs_work, H. reflexivity. Qed.
@@ -607,12 +617,6 @@ Proof.
     split; [cbn; repeat split; auto|]. cbn. destruct (0 <? c)%N, (0 <? b)%N; reflexivity.
 Qed.
 
-Ltac obind_inv H :=
-  repeat match type of H with
-         | obind ?o _ = Some _ => let E := fresh "E" in destruct o eqn:E; [cbn [obind] in H|discriminate H]
-         | (let '(_, _) := ?p in _) = Some _ => destruct p
-         | (if ?c then _ else _) = Some _ => let E := fresh "E" in destruct c eqn:E; [|discriminate H]
-         end.
 
 Lemma block_instr_eq o bt body s l st f :
   X_instr (S f) s l st (ABlock o bt body) =
@@ -630,7 +634,7 @@ Proof.
   inversion H; subst t1 r1; clear H. rewrite good_blk in Hg.
   destruct (HA f (Nat.lt_succ_diag_r f) _ _ _ _ _ Hms Hsa _ _ _ _ _ EX Hg) as [T [r0' [HES [HRR Hobs]]]].
   eexists. eexists. split; [apply (EI_block (mhost h) cap m' afs_m); exact HES|].
-  split; [apply RR_blk; exact HRR|]. rewrite obs_m_app, obs_s_app, obs_work, Hobs. reflexivity.
+  split; [apply RR_blk; exact HRR|]. apply (obs_pre o); exact Hobs.
 Qed.
 
 Lemma sim_tblock f L bt body hb body' sbody st s l t1 r1 :
@@ -645,7 +649,7 @@ Proof.
   destruct (HA f (Nat.lt_succ_diag_r f) _ _ _ _ _ Hms Hsa _ _ _ _ _ EX Hg) as [T [r0' [HES [HRR Hobs]]]].
   destruct (ES_tick_opt hb _ _ _ _ _ _ HES) as [T' [HES' Hobs']].
   eexists. eexists. split; [apply (EI_block (mhost h) cap m' afs_m); exact HES'|].
-  split; [apply RR_blk; exact HRR|]. rewrite obs_m_app, obs_s_app, obs_work, Hobs', Hobs. reflexivity.
+  split; [apply RR_blk; exact HRR|]. apply (obs_pre OInj). congruence.
 Qed.
 
 Lemma instr_sim f :
@@ -712,13 +716,13 @@ Proof.
   - (* Block *)
     obind_inv Hmi. obind_inv Ha. inversion Hmi; subst hj pre fl; clear Hmi. inversion Ha; subst a; clear Ha.
     repeat match goal with HH : Some _ = Some _ |- _ => inversion HH; subst; clear HH end.
-    destruct (sim_block f L bt body _ _ _ (OSrc n 0) st s l t1 r1 HA ltac:(eassumption) ltac:(eassumption) H Hg)
+    destruct (sim_block f L bt body _ _ _ _ st s l t1 r1 HA ltac:(eassumption) ltac:(eassumption) H Hg)
       as [T [r' [HEI [HRR Hobs]]]].
     exists T, r'. split; [apply EP1; exact HEI|auto].
   - (* Loop *)
     obind_inv Hmi. obind_inv Ha. inversion Hmi; subst hj pre fl; clear Hmi. inversion Ha; subst a; clear Ha.
     repeat match goal with HH : Some _ = Some _ |- _ => inversion HH; subst; clear HH end.
-    destruct (HL L body _ _ _ (OSrc n 0) bt ltac:(eassumption) ltac:(eassumption) _ _ _ _ _ H Hg) as [T [r' [HEI [HRR Hobs]]]].
+    destruct (HL L body _ _ _ _ bt ltac:(eassumption) ltac:(eassumption) _ _ _ _ _ H Hg) as [T [r' [HEI [HRR Hobs]]]].
     exists T, r'. split; [apply EP1; exact HEI|auto].
   - (* If *)
     obind_inv Hmi. obind_inv Ha. inversion Hmi; subst hj pre fl; clear Hmi. inversion Ha; subst a; clear Ha.
@@ -733,11 +737,309 @@ Proof.
     + destruct (sim_tblock f L bt els _ _ _ st0 s l t r0 HA' ltac:(eassumption) ltac:(eassumption) EX Hg)
         as [T [r' [HEI [HRR Hobs]]]].
       eexists. exists r'. split; [apply EP1; apply (EI_if (mhost h) cap m' afs_m); rewrite Ev; exact HEI|].
-      split; [exact HRR|]. rewrite obs_m_app, obs_s_app, obs_work, Hobs. reflexivity.
+      split; [exact HRR|]. apply (obs_pre (OSrc _ 0)); exact Hobs.
     + destruct (sim_tblock f L bt thn _ _ _ st0 s l t r0 HA' ltac:(eassumption) ltac:(eassumption) EX Hg)
         as [T [r' [HEI [HRR Hobs]]]].
       eexists. exists r'. split; [apply EP1; apply (EI_if (mhost h) cap m' afs_m); rewrite Ev; exact HEI|].
-      split; [exact HRR|]. rewrite obs_m_app, obs_s_app, obs_work, Hobs. reflexivity.
+      split; [exact HRR|]. apply (obs_pre (OSrc _ 0)); exact Hobs.
+Qed.
+
+(** ** sequences, and the induction *)
+Lemma simA_step f :
+  (forall f', (f' < f)%nat -> SimA f') -> (forall f', (f' < f)%nat -> SimInv f') ->
+  (forall f', (f' < f)%nat -> SimLoop f') -> SimA f.
+Proof.
+  intros HA HI HL L is h0 is' sa Hms Hsa s l st W r H Hg.
+  destruct f as [|f]; [inversion H; subst; discriminate|].
+  rewrite tseq_S in H.
+  destruct is as [|j rest].
+  - inversion Hms; subst. inversion Hsa; subst. cbn [seq_body] in H. inversion H; subst.
+    exists [], (RNormal (sh s) l st). split; [apply ES_nil|]. split; [cbn; auto|reflexivity].
+  - rewrite mseq_cons in Hms. rewrite annot_seq_cons in Hsa.
+    destruct (mseq L rest) as [[hr r']|] eqn:Er; [|discriminate].
+    destruct (mi L j) as [[[hj pre] fl]|] eqn:Ej; [|discriminate].
+    destruct (annot_instr L j) as [a|] eqn:Ea; [|discriminate].
+    destruct (annot_seq L rest) as [sa'|] eqn:Esa; [|discriminate].
+    inversion Hsa; subst sa; clear Hsa. cbn [seq_body] in H.
+    assert (HIS : InstrSim f).
+    { apply instr_sim; [intros; apply HA; lia|intros; apply HI; lia|apply HL; lia]. }
+    destruct (X_instr f s l st a) as [t1 r1] eqn:E1.
+    assert (Htail : forall T2 r2 s1 l1 st1, ESm r' s1 l1 st1 T2 r2 ->
+              exists T2', ESm (if fl then tick_opt hr ++ r' else r') s1 l1 st1 T2' r2 /\ obs_m T2' = obs_m T2).
+    { intros T2 r2 s1 l1 st1 HE. destruct fl; [apply ES_tick_opt; exact HE|exists T2; auto]. }
+    assert (His' : is' = pre ++ (if fl then tick_opt hr ++ r' else r')).
+    { unfold mcombine in Hms. destruct fl; [destruct (seg_ok hr); [|discriminate]|]; inversion Hms; reflexivity. }
+    subst is'.
+    destruct r1 as [s1 l1 st1| | | | |].
+    + destruct (X_seq f s1 l1 st1 sa') as [t2 r2] eqn:E2. inversion H; subst W r; clear H.
+      destruct (HIS L j hj pre fl a Ej Ea _ _ _ _ _ E1 eq_refl) as [T1 [r1' [HEP [HRR1 Hobs1]]]].
+      apply RR_normal_inv in HRR1. subst r1'.
+      destruct (HA f (Nat.lt_succ_diag_r f) L rest hr r' sa' Er Esa _ _ _ _ _ E2 Hg) as [T2 [r2' [HES2 [HRR2 Hobs2]]]].
+      destruct (Htail _ _ _ _ _ HES2) as [T2' [HES2' Hobs2']].
+      exists (T1 ++ T2'), r2'. split; [apply HEP; exact HES2'|]. split; [exact HRR2|].
+      rewrite obs_m_app, obs_s_app. congruence.
+    + inversion H; subst W r; clear H.
+      destruct (HIS L j hj pre fl a Ej Ea _ _ _ _ _ E1 Hg) as [T1 [r1' [HEP [HRR1 Hobs1]]]].
+      exists T1, r1'. split; [|auto]. apply (EP_stop (mhost h) cap m' afs_m); [exact HEP|].
+      rewrite (RR_normal_iff _ _ _ HRR1). reflexivity.
+    + inversion H; subst W r; clear H.
+      destruct (HIS L j hj pre fl a Ej Ea _ _ _ _ _ E1 Hg) as [T1 [r1' [HEP [HRR1 Hobs1]]]].
+      exists T1, r1'. split; [|auto]. apply (EP_stop (mhost h) cap m' afs_m); [exact HEP|].
+      rewrite (RR_normal_iff _ _ _ HRR1). reflexivity.
+    + inversion H; subst W r; clear H.
+      destruct (HIS L j hj pre fl a Ej Ea _ _ _ _ _ E1 Hg) as [T1 [r1' [HEP [HRR1 Hobs1]]]].
+      exists T1, r1'. split; [|auto]. apply (EP_stop (mhost h) cap m' afs_m); [exact HEP|].
+      rewrite (RR_normal_iff _ _ _ HRR1). reflexivity.
+    + inversion H; subst; discriminate.
+    + inversion H; subst; discriminate.
+Qed.
+
+Theorem sim_all : forall f, SimA f /\ SimInv f /\ SimLoop f.
+Proof.
+  induction f as [f IH] using lt_wf_ind.
+  assert (HA : SimA f) by (apply simA_step; intros f' Hl; apply IH; exact Hl).
+  split; [exact HA|]. split.
+  - apply simInv_step. intros f' Hl; apply IH; exact Hl.
+  - apply simLoop_step; intros f' Hl; apply IH; exact Hl.
 Qed.
 
 End Sim.
+
+(** ** instantiation of the metered module: the table entries are shifted *)
+Lemma set_nth_map {A B} (g : A -> B) t i x :
+  set_nth (map g t) i (g x) = option_map (map g) (set_nth t i x).
+Proof.
+  revert i. induction t as [|y t IH]; intro i; [reflexivity|].
+  destruct i; cbn [map set_nth]; [reflexivity|]. rewrite IH. destruct (set_nth t i x); reflexivity.
+Qed.
+
+Lemma write_elems_sh t off fs :
+  write_elems (map (option_map S) t) off (map (fun i => (i + num_added_functions)%nat) fs) =
+  option_map (map (option_map S)) (write_elems t off fs).
+Proof.
+  revert t off. induction fs as [|fi fs IH]; intros t off; [reflexivity|].
+  cbn [map write_elems]. replace (fi + num_added_functions)%nat with (S fi) by (unfold num_added_functions; lia).
+  change (Some (S fi)) with (option_map S (Some fi)). rewrite set_nth_map.
+  destruct (set_nth t off (Some fi)) as [t'|]; [|reflexivity]. cbn [option_map]. apply IH.
+Qed.
+
+Lemma init_table_sh t es :
+  init_table (map (option_map S) t) (shift_elems es) = option_map (map (option_map S)) (init_table t es).
+Proof.
+  revert t. induction es as [|[off fs] es IH]; intro t; [reflexivity|].
+  cbn [shift_elems map init_table fst snd]. rewrite write_elems_sh.
+  destruct (write_elems t (N.to_nat off) fs) as [t'|]; [|reflexivity]. cbn [option_map]. apply IH.
+Qed.
+
+Lemma map_repeat_none k : map (option_map S) (repeat (@None nat) k) = repeat None k.
+Proof. induction k as [|k IH]; [reflexivity|]. cbn [repeat map option_map]. f_equal. exact IH. Qed.
+
+Lemma instantiate_inject cfg m m' s :
+  inject cfg m = Some m' -> instantiate m = Some s -> instantiate m' = Some (sh s).
+Proof.
+  unfold inject. destruct (omap_list _ _) as [fs|]; [|discriminate]. intro H; inversion H; subst m'; clear H.
+  unfold instantiate. cbn [m_table m_elems m_mem m_data m_globals].
+  set (t0 := match m_table m with Some n => repeat (@None nat) (N.to_nat n) | None => @nil (option nat) end).
+  assert (E0 : match m_table m with Some n => Some (repeat (@None nat) (N.to_nat n)) | None => Some [] end = Some t0)
+    by (unfold t0; destruct (m_table m); reflexivity).
+  rewrite E0.
+  assert (Et : map (option_map S) t0 = t0).
+  { unfold t0. destruct (m_table m) as [n|]; [apply map_repeat_none|reflexivity]. }
+  intro Hsrc. replace (init_table t0 (shift_elems (m_elems m)))
+    with (option_map (map (option_map S)) (init_table t0 (m_elems m)))
+    by (rewrite <- init_table_sh, Et; reflexivity).
+  destruct (init_table t0 (m_elems m)) as [t|]; [|discriminate]. cbn [option_map].
+  destruct (match m_mem m with
+            | Some l => Some {| mem_pages := l_min l; mem_max := l_max l; mem_data := FMapPositive.PositiveMap.empty Z |}
+            | None => None
+            end) as [x|].
+  - destruct (init_data x (m_data m)); [|discriminate]. inversion Hsrc; reflexivity.
+  - destruct (m_data m); [|discriminate]. inversion Hsrc; reflexivity.
+Qed.
+
+(** ** whole runs *)
+Theorem metered_run_simulates cfg m m' afs_s afs_m h cap fuel fi args W o :
+  inject cfg m = Some m' -> annot_funcs cfg m = Some afs_s -> ameter_funcs cfg m = Some afs_m ->
+  trun h cap m afs_s fuel fi args = (W, o) -> o <> OutOfFuel -> o <> Stuck ->
+  exists f0 T, (forall f, (f0 <= f)%nat -> trun (mhost h) cap m' afs_m f (S fi) args = (T, o)) /\
+               obs_m T = obs_s W.
+Proof.
+  intros Hinj Hs Hm H Hnf Hns. unfold trun in H.
+  destruct (instantiate m) as [s|] eqn:Ei; [|inversion H; subst; congruence].
+  destruct (tinvoke h cap m afs_s fuel s fi args) as [W0 rv] eqn:Ev.
+  assert (Hgv : goodv rv = true).
+  { destruct rv as [r0|x]; [|reflexivity]. destruct r0; try reflexivity; inversion H; subst; congruence. }
+  destruct (sim_all cfg m m' afs_s afs_m h cap Hinj Hs Hm fuel) as [_ [HI _]].
+  destruct (HI _ _ _ _ _ Ev Hgv) as [T [[f0 HEV] Hobs]].
+  assert (HW : W = W0) by (destruct rv as [[]|[? ?]]; inversion H; reflexivity). subst W0.
+  exists f0, T. split; [|exact Hobs]. intros f Hf. unfold trun.
+  rewrite (instantiate_inject _ _ _ _ Hinj Ei). rewrite (HEV f Hf).
+  destruct rv as [r0|[s' rv]]; cbn [shv].
+  - destruct r0; inversion H; reflexivity.
+  - inversion H; reflexivity.
+Qed.
+
+(** ** the annotated source program is the source program; metering succeeds only on annotatable code *)
+Section AnnotFacts.
+Variable cfg : cost_cfg.
+Variable cx : cost_ctx.
+
+Lemma annot_erase_seq : forall is L sa, annot_seq cfg cx L is = Some sa -> erase_seq sa = is.
+Proof.
+  apply (instrs_ind2
+           (fun i => forall L a, annot_instr cfg cx L i = Some a -> erase a = i)
+           (fun is => forall L sa, annot_seq cfg cx L is = Some sa -> erase_seq sa = is)).
+  - intros b L a H. rewrite annot_instr_eq in H. obind_inv H.
+    destruct b; try (inversion H; reflexivity). obind_inv H. inversion H; reflexivity.
+  - intros bt body IH L a H. rewrite annot_instr_eq in H. obind_inv H. inversion H; subst. cbn [erase].
+    f_equal. eapply IH; eassumption.
+  - intros bt body IH L a H. rewrite annot_instr_eq in H. obind_inv H. inversion H; subst. cbn [erase].
+    f_equal. eapply IH; eassumption.
+  - intros bt t e IHt IHe L a H. rewrite annot_instr_eq in H. obind_inv H. inversion H; subst. cbn [erase].
+    f_equal; [eapply IHt|eapply IHe]; eassumption.
+  - intros L sa H. inversion H; reflexivity.
+  - intros i r IHi IHr L sa H. rewrite annot_seq_cons in H.
+    destruct (annot_instr cfg cx L i) as [a|] eqn:Ea; [|discriminate].
+    destruct (annot_seq cfg cx L r) as [r'|] eqn:Er; [|discriminate]. inversion H; subst. cbn [erase_seq map].
+    f_equal; [eapply IHi; eassumption|eapply IHr; eassumption].
+Qed.
+
+Lemma annot_of_mseq : forall is L x, Meter.mseq cfg cx L is = Some x -> exists sa, annot_seq cfg cx L is = Some sa.
+Proof.
+  apply (instrs_ind2
+           (fun i => forall L x, Meter.mi cfg cx L i = Some x -> exists a, annot_instr cfg cx L i = Some a)
+           (fun is => forall L x, Meter.mseq cfg cx L is = Some x -> exists sa, annot_seq cfg cx L is = Some sa)).
+  - intros b L x H. rewrite mi_eq in H. rewrite annot_instr_eq. obind_inv H. cbn [obind].
+    destruct b; try (eexists; reflexivity). cbn [kind_of] in H. obind_inv H. cbn [obind]. eexists; reflexivity.
+  - intros bt body IH L x H. rewrite mi_eq in H. rewrite annot_instr_eq. obind_inv H. cbn [obind].
+    destruct (IH _ _ E0) as [sa Hsa]. rewrite Hsa. cbn [obind]. eexists; reflexivity.
+  - intros bt body IH L x H. rewrite mi_eq in H. rewrite annot_instr_eq. obind_inv H. cbn [obind].
+    destruct (IH _ _ E0) as [sa Hsa]. rewrite Hsa. cbn [obind]. eexists; reflexivity.
+  - intros bt t e IHt IHe L x H. rewrite mi_eq in H. rewrite annot_instr_eq. obind_inv H. cbn [obind].
+    destruct (IHt _ _ E0) as [st Hst]. destruct (IHe _ _ E1) as [se Hse]. rewrite Hst, Hse. cbn [obind].
+    eexists; reflexivity.
+  - intros L x H. eexists; reflexivity.
+  - intros i r IHi IHr L x H. rewrite mseq_cons in H. rewrite annot_seq_cons.
+    destruct (Meter.mseq cfg cx L r) as [[hr r']|] eqn:Er; [|discriminate].
+    destruct (Meter.mi cfg cx L i) as [y|] eqn:Ei; [|discriminate].
+    destruct (IHi _ _ Ei) as [a Ha]. destruct (IHr _ _ Er) as [sa Hsa]. rewrite Ha, Hsa. eexists; reflexivity.
+Qed.
+End AnnotFacts.
+
+Lemma omap_list_some {A B C} (g : A -> option B) (g' : A -> option C) l l' :
+  omap_list g l = Some l' -> (forall x y, g x = Some y -> exists y', g' x = Some y') -> exists l'', omap_list g' l = Some l''.
+Proof.
+  revert l'. induction l as [|x r IH]; intros l' H Hg; [eexists; reflexivity|].
+  cbn in H. destruct (g x) eqn:Ex; [|discriminate]. destruct (omap_list g r) eqn:Er; [|discriminate].
+  destruct (Hg _ _ Ex) as [y' Hy]. destruct (IH _ eq_refl Hg) as [l'' Hl]. cbn. rewrite Hy, Hl. eexists; reflexivity.
+Qed.
+
+Lemma inject_ameter cfg m m' : inject cfg m = Some m' -> exists afs, ameter_funcs cfg m = Some afs.
+Proof.
+  unfold inject, ameter_funcs. destruct (omap_list (meter_func cfg m) (m_funcs m)) as [fs|] eqn:E; [|discriminate].
+  intros _. eapply omap_list_some; [exact E|]. intros f f' Hf. unfold meter_func, meter_body in Hf. unfold ameter_func.
+  destruct (nth_error (m_types m) (f_type f)); [|discriminate].
+  destruct (ameter_body cfg (ctx_of_module m) _ _ _); [|discriminate]. eexists; reflexivity.
+Qed.
+
+Lemma ameter_annot cfg m afs : ameter_funcs cfg m = Some afs -> exists afs_s, annot_funcs cfg m = Some afs_s.
+Proof.
+  unfold ameter_funcs, annot_funcs. intro H. eapply omap_list_some; [exact H|].
+  intros f f' Hf. unfold ameter_func, ameter_body in Hf. unfold annot_func. revert Hf.
+  destruct (nth_error (m_types m) (f_type f)) as [ft|]; [|discriminate].
+  match goal with |- context [Meter.mseq ?a ?b ?c ?d] => destruct (Meter.mseq a b c d) as [x|] eqn:E end;
+    [|cbn [obind]; discriminate].
+  intros _. destruct (annot_of_mseq _ _ _ _ _ E) as [sa Hsa].
+  match goal with |- context [annot_seq ?a ?b ?c ?d] => replace (annot_seq a b c d) with (Some sa) end.
+  eexists; reflexivity.
+Qed.
+
+Lemma annot_funcs_erase cfg m afs_s : annot_funcs cfg m = Some afs_s -> m_funcs m = map erase_func afs_s.
+Proof.
+  unfold annot_funcs. revert afs_s. induction (m_funcs m) as [|f r IH]; intros afs_s H; cbn [omap_list] in H.
+  - inversion H; reflexivity.
+  - destruct (annot_func cfg m f) as [af|] eqn:Ea; [|discriminate].
+    destruct (omap_list (annot_func cfg m) r) as [afs'|] eqn:Er; [|discriminate].
+    inversion H; subst. cbn [map]. f_equal; [|apply IH; reflexivity].
+    unfold annot_func in Ea. destruct (nth_error (m_types m) (f_type f)) as [ft|]; [|discriminate].
+    destruct (annot_seq cfg (ctx_of_module m) [ft_result ft] (f_body f)) as [sa|] eqn:Es; [|discriminate].
+    inversion Ea; subst. unfold erase_func; cbn [af_type af_locals af_body]. rewrite (annot_erase_seq _ _ _ _ _ Es). destruct f; reflexivity.
+Qed.
+
+(** ** what the observation equality says about work and host calls *)
+Definition wk (e : event) : option N := match e with EvWork c => Some c | _ => None end.
+Definition hostcall (e : event) : option (nat * list val) := match e with EvHost i a => Some (i, a) | _ => None end.
+
+Lemma works_obs_m T : works T = omapf wk (obs_m T).
+Proof.
+  induction T as [|e T IH]; [reflexivity|]. destruct e as [n|c|[|j] a|fi|]; cbn [works obs_m omapf pm]; try exact IH.
+  destruct (0 <? c)%N; cbn [omapf wk]; [f_equal|]; exact IH.
+Qed.
+Lemma works_obs_s T : works T = omapf wk (obs_s T).
+Proof.
+  induction T as [|e T IH]; [reflexivity|]. destruct e as [n|c|i a|fi|]; cbn [works obs_s omapf ps]; try exact IH.
+  destruct (0 <? c)%N; cbn [omapf wk]; [f_equal|]; exact IH.
+Qed.
+Lemma work_works T : work T = fold_right N.add 0%N (works T).
+Proof.
+  induction T as [|e T IH]; [reflexivity|]. destruct e; cbn [work works]; try exact IH.
+  destruct (0 <? c)%N eqn:E; cbn [fold_right]; [rewrite IH; reflexivity|].
+  apply N.ltb_ge in E. rewrite IH. lia.
+Qed.
+
+(** host calls of the metered trace other than [account_memory], re-indexed to the source imports *)
+Fixpoint src_hostcalls (T : list event) : list (nat * list val) :=
+  match T with
+  | [] => []
+  | EvHost (S j) a :: r => (j, a) :: src_hostcalls r
+  | _ :: r => src_hostcalls r
+  end.
+Fixpoint hostcalls (T : list event) : list (nat * list val) :=
+  match T with
+  | [] => []
+  | EvHost i a :: r => (i, a) :: hostcalls r
+  | _ :: r => hostcalls r
+  end.
+Lemma src_hostcalls_obs T : src_hostcalls T = omapf hostcall (obs_m T).
+Proof.
+  induction T as [|e T IH]; [reflexivity|]. destruct e as [n|c|[|j] a|fi|]; cbn [src_hostcalls obs_m omapf pm]; try exact IH.
+  - destruct (0 <? c)%N; cbn [omapf hostcall]; exact IH.
+  - cbn [omapf hostcall]. f_equal. exact IH.
+Qed.
+Lemma hostcalls_obs T : hostcalls T = omapf hostcall (obs_s T).
+Proof.
+  induction T as [|e T IH]; [reflexivity|]. destruct e as [n|c|i a|fi|]; cbn [hostcalls obs_s omapf ps]; try exact IH.
+  - destruct (0 <? c)%N; cbn [omapf hostcall]; exact IH.
+  - cbn [omapf hostcall]. f_equal. exact IH.
+Qed.
+
+(** ** meter_transparent on the reference semantics *)
+Theorem meter_transparent_sem cfg m m' h cap fuel fi args o :
+  inject cfg m = Some m' ->
+  run h cap m fuel fi args = o -> o <> OutOfFuel -> o <> Stuck ->
+  exists f0, forall f, (f0 <= f)%nat -> run (mhost h) cap m' f (S fi) args = o.
+Proof.
+  intros Hinj Hrun Hnf Hns.
+  destruct (inject_ameter _ _ _ Hinj) as [afs_m Hm]. destruct (ameter_annot _ _ _ Hm) as [afs_s Hs].
+  pose proof (trun_erase h cap m afs_s (annot_funcs_erase _ _ _ Hs) fuel fi args) as Es.
+  destruct (trun h cap m afs_s fuel fi args) as [W o0] eqn:Et. cbn [snd] in Es. rewrite Hrun in Es. subst o0.
+  destruct (metered_run_simulates _ _ _ _ _ _ _ _ _ _ _ _ Hinj Hs Hm Et Hnf Hns) as [f0 [T [HT _]]].
+  exists f0. intros f Hf.
+  rewrite <- (trun_erase (mhost h) cap m' afs_m (MeterSafe.inject_erase _ _ _ _ Hinj Hm) f (S fi) args).
+  rewrite (HT f Hf). reflexivity.
+Qed.
+
+(** the work summed on the metered trace is the work of the source run; same host calls *)
+Theorem metered_work_is_source_work cfg m m' afs_s afs_m h cap fuel fi args W o :
+  inject cfg m = Some m' -> annot_funcs cfg m = Some afs_s -> ameter_funcs cfg m = Some afs_m ->
+  trun h cap m afs_s fuel fi args = (W, o) -> o <> OutOfFuel -> o <> Stuck ->
+  exists f0 T, (forall f, (f0 <= f)%nat -> trun (mhost h) cap m' afs_m f (S fi) args = (T, o)) /\
+               works T = works W /\ work T = work W /\ src_hostcalls T = hostcalls W.
+Proof.
+  intros Hinj Hs Hm H Hnf Hns.
+  destruct (metered_run_simulates _ _ _ _ _ _ _ _ _ _ _ _ Hinj Hs Hm H Hnf Hns) as [f0 [T [HT Hobs]]].
+  exists f0, T. split; [exact HT|].
+  assert (Hw : works T = works W) by (rewrite works_obs_m, works_obs_s, Hobs; reflexivity).
+  split; [exact Hw|]. split; [rewrite !work_works, Hw; reflexivity|].
+  rewrite src_hostcalls_obs, hostcalls_obs, Hobs. reflexivity.
+Qed.
